@@ -189,17 +189,22 @@ def gen_matrix(rng, n):
     return m, ("sym" if sym else "asym")
 
 
-def eval_length(ctx, n, cfg, matrix, plan_rows, tag, bye_cells="all"):
+def eval_length(ctx, n, cfg, matrix, plan_rows, tag, bye_cells="all",
+                layout=None):
     from moptipyapps.ttp.game_plan import GamePlan
     from moptipyapps.ttp.game_plan_space import GamePlanSpace
     from moptipyapps.ttp.plan_length import GamePlanLength
-    inst = C07.make_instance(n, tuple(cfg), matrix)
+    if layout is None:
+        from vlib.workloads.arrays import LAYOUTS
+        layout = str(ctx.rng.choice(LAYOUTS + ("C", "C")))
+    ctx.count(f"input_layout[{layout}]")
+    inst = C07.make_instance(n, tuple(cfg), matrix, layout)
     obj = GamePlanLength(inst)
     gp = GamePlan(inst)
     gp[:, :] = np.array(plan_rows, dtype=np.int64)
     GamePlanSpace(inst).validate(gp)
     case = {"kind": "plan", "n": n, "cfg": list(cfg), "matrix": matrix,
-            "plan": plan_rows, "tag": tag}
+            "plan": plan_rows, "tag": tag, "layout": layout}
     ctx.case()
     ctx.count("length_evaluations")
     ctx.count(f"tag[{tag}]")
@@ -313,4 +318,5 @@ def replay(ctx, case):
         optimum(ctx, case["name"])
     else:
         eval_length(ctx, case["n"], case["cfg"], case["matrix"],
-                    case["plan"], case.get("tag", "replay"))
+                    case["plan"], case.get("tag", "replay"),
+                    layout=case.get("layout", "C"))
